@@ -342,6 +342,13 @@ def work_init(member):
     return res
 
 
+def _view(sched):
+    try:
+        return sched.view(colour=False)
+    except Exception:    # noqa  (halo-exchange nodes of a schedule that cannot
+        return None      # be generated refuse to describe themselves)
+
+
 def work_state(job):
     '''job = (member, state id, path, [(transition id, op)]).  Replays the path
     and tries every operation on the state reached; an operation the real
@@ -360,11 +367,11 @@ def work_state(job):
                 out["path"] = obj[2]
         psy, invoke, _ = obj
         sched = invoke.schedule
-        before = sched.view(colour=False)
+        before = _view(sched)
         try:
             res = apply_op(sched, op)
         except TransformationError as err:
-            if sched.view(colour=False) == before:
+            if before is not None and _view(sched) == before:
                 out["trans"].append({"tid": tid, "res": "refused",
                                      "why": str(err)[-160:]})
             else:
